@@ -81,8 +81,19 @@ fn check(argc: usize, envc: usize, pattern: usize, size: u64, layout: usize) -> 
             viol.push((k, w));
         }
     };
-    let argv: Vec<String> = (0..argc).map(|j| make_string(pattern + j, &format!("arg{j}"))).collect();
-    let envp: Vec<String> = (0..envc).map(|j| make_string(pattern + 3 + j, &format!("ENV{j}"))).collect();
+    // patterns >= 100 (seed C17j: a bounded placement search): one very long first argument, then
+    // very short strings - the placement of a short string walks past everything placed before it
+    let mk = |idx: usize, tag: String| -> String {
+        if pattern >= 100 {
+            let n = if idx == 0 { if pattern == 100 { 40_000 } else { 70_000 } } else { [0usize, 1, 2, 1][idx % 4] };
+            let pat: Vec<char> = tag.chars().chain("=abcdefghijklmnopqrstuvwxyz".chars()).collect();
+            (0..n).map(|i| pat[i % pat.len()]).collect()
+        } else {
+            make_string(pattern + idx, &tag)
+        }
+    };
+    let argv: Vec<String> = (0..argc).map(|j| mk(j, format!("arg{j}"))).collect();
+    let envp: Vec<String> = (0..envc).map(|j| mk(3 + j, format!("ENV{j}"))).collect();
     let frame_words = argc + envc + 3;
     let sc = if size < (frame_words as u64) * 8 + 16 { "size<frame" } else { "size>=frame" };
     let ctx = format!("argc {argc} envc {envc} pattern {pattern} size {size:#x} layout {}", LAYOUTS[layout]);
@@ -253,6 +264,34 @@ fn gen(maxc: usize) -> impl Fn(&mut EnumCtx) + Sync {
                 }
             }
         }
+        for size in [0x1000u64, 0x10_0000] {
+            for argc in 1..4usize {
+                for envc in 0..3usize {
+                    for pattern in [100usize, 101] {
+                        for layout in 0..LAYOUTS.len() {
+                            if !e.next() {
+                                continue;
+                            }
+                            e.describe("stack-init", &format!("argc {argc} envc {envc} pattern {pattern} size {size:#x} layout {}", LAYOUTS[layout]));
+                            let viol = check(argc, envc, pattern, size, layout);
+                            e.count("transitions", (argc + envc + 3) as u64);
+                            let mut f = crate::common::Fp::new();
+                            f.u64(argc as u64);
+                            f.u64(envc as u64);
+                            f.u64(pattern as u64);
+                            f.u64(size);
+                            f.u64(layout as u64);
+                            e.state(f.0);
+                            f.u64(viol.len() as u64);
+                            e.outcome(f.0);
+                            for (k, w) in viol {
+                                e.finding(&k, || w.clone(), || json!({"argc": argc, "envc": envc, "pattern": pattern, "size": size, "layout": LAYOUTS[layout]}));
+                            }
+                        }
+                    }
+                }
+            }
+        }
         for argc in 0..=maxc {
             for envc in 0..=maxc {
                 for pattern in 0..SHAPES {
@@ -302,7 +341,7 @@ pub fn run(tier: Tier) -> i32 {
         return crate::common::finish_replay("C17", &art, &|ws| confirm_enum(&o, &g, ws));
     }
     let out = run_enum(&o, &g);
-    enum_evidence(&mut run, &out, "one case = (argc, envc in 0..=N, one of 10 rotations of the string shapes {empty, 1, 7, 8, 15, 16, 17, 300 bytes, multi-byte UTF-8 characters, 0x1001 bytes}, stack size in {0, 8, 16, 64, 0x100, 0x1000, 0x1001, 0x2000}, one of 4 layouts), plus stack sizes {1 MiB, 4 MiB - 4 KiB, 4 MiB} x argc, envc <= 2 x 2 patterns x 4 layouts; the frame is read back by executing guest `pop rax` instructions and by following the pointers; areas from the structured view; states = distinct configurations; distinct_nontrivial = distinct (configuration, number of violated clauses)");
+    enum_evidence(&mut run, &out, "one case = (argc, envc in 0..=N, one of 10 rotations of the string shapes {empty, 1, 7, 8, 15, 16, 17, 300 bytes, multi-byte UTF-8 characters, 0x1001 bytes}, stack size in {0, 8, 16, 64, 0x100, 0x1000, 0x1001, 0x2000}, one of 4 layouts), plus stack sizes {1 MiB, 4 MiB - 4 KiB, 4 MiB} x argc, envc <= 2 x 2 patterns x 4 layouts, plus a first argument of 40 000 / 70 000 bytes followed by strings of 0..2 bytes (argc 1..3, envc 0..2, 2 stack sizes, 4 layouts); the frame is read back by executing guest `pop rax` instructions and by following the pointers; areas from the structured view; states = distinct configurations; distinct_nontrivial = distinct (configuration, number of violated clauses)");
     run.cov("max_argc_envc", json!(maxc));
     run.guard("cases", out.cases >= 5_000 || out.capped, format!("{} configurations", out.cases));
     run.assume("<= 16 bytes of alignment slack accepted for the space below RSP; contents of padding not checked");
